@@ -385,6 +385,26 @@ pub fn random_step(w: &mut World, sc: &Scenario, rec: &mut Recorder) {
         reward_step(w, sc, rec, &pos, v2);
         return;
     }
+    if sc.af_periods.is_some() && w.rng.gen_bool(0.03) {
+        // the fee authority changes some of the pool's adaptive-fee constants (often lowering the accumulator
+        // cap below what is currently stored): the stored variables must be reset
+        let spacing = w.pools[&pool].spacing;
+        let divisors: Vec<u16> = (1..=spacing.min(512)).filter(|d| spacing % d == 0).collect();
+        let filter = pick(w, &[1u16, 5, 30, 60]);
+        let c = crate::world2::AfConstants {
+            filter_period: filter,
+            decay_period: filter + pick(w, &[1u16, 10, 120, 600]),
+            reduction_factor: pick(w, &[0u16, 500, 5000, 9999]),
+            adaptive_fee_control_factor: pick(w, &[0u32, 100, 4000, 50000]),
+            max_volatility_accumulator: pick(w, &[0u32, 10_000, 20_000, 35_000, 350_000]),
+            tick_group_size: if w.rng.gen_bool(0.7) { sc.af_group } else { pick(w, &divisors) },
+            major_swap_threshold_ticks: pick(w, &[1u16, 8, 64]).min(spacing.saturating_mul(88)),
+        };
+        let which = if w.rng.gen_bool(0.5) { 16u8 } else { w.rng.gen_range(1..128) as u8 };
+        let ix = w.ix_set_adaptive_fee_constants(&pool, &c, which);
+        rec.exec(w, &ix, false, json!(null));
+        return;
+    }
     let r = w.rng.gen_range(0..100);
     if !pos.is_empty() && !sc.full_range_only && w.rng.gen_bool(0.04) {
         mirror_position(w, sc, rec, &pos, v2);
